@@ -1,2 +1,28 @@
-(* C16 -- theorems are being added *)
-From ZK Require Import Cl.
+(* C16 -- Boudot range proof.  Proved: what an accepted proof pins -- E' = E^(2^T), and (F8, repaired by 291caf1) the two
+   square proofs are about E_a_1 / E_b_1 themselves, so sub-proofs cannot be transplanted onto a freely chosen E_?_1.
+   Completeness for every interval and rejection of edited proofs: correspondence + sweep. *)
+From ZK Require Import Cl ClArith ClSig ClMore.
+
+Theorem C16_boudot_accepts :
+  forall BP p g h n rmin rmax,
+  boudot_verify BP p g h n rmin rmax = Ok true ->
+  (rmin < rmax)%Z /\ pow_mod (bd_E p) (two (range_T BP rmin rmax)) n = Ok (bd_Eprime p) /\
+  sq_E (wt_sqa (bd_wt p)) = wt_Ea1 (bd_wt p) /\ sq_E (wt_sqb (bd_wt p)) = wt_Eb1 (bd_wt p).
+Proof. exact boudot_accepts. Qed.
+Check (C16_boudot_accepts :
+  forall BP p g h n rmin rmax,
+  boudot_verify BP p g h n rmin rmax = Ok true ->
+  (rmin < rmax)%Z /\ pow_mod (bd_E p) (two (range_T BP rmin rmax)) n = Ok (bd_Eprime p) /\
+  sq_E (wt_sqa (bd_wt p)) = wt_Ea1 (bd_wt p) /\ sq_E (wt_sqb (bd_wt p)) = wt_Eb1 (bd_wt p)).
+Print Assumptions C16_boudot_accepts.
+
+Theorem C16_tolerance_accepts_ties_squares :
+  forall BP p g h E n a b T,
+  verify_of_tolerance BP p g h E n a b T = Ok true ->
+  sq_E (wt_sqa p) = wt_Ea1 p /\ sq_E (wt_sqb p) = wt_Eb1 p.
+Proof. exact tolerance_accepts_ties_squares. Qed.
+Check (C16_tolerance_accepts_ties_squares :
+  forall BP p g h E n a b T,
+  verify_of_tolerance BP p g h E n a b T = Ok true ->
+  sq_E (wt_sqa p) = wt_Ea1 p /\ sq_E (wt_sqb p) = wt_Eb1 p).
+Print Assumptions C16_tolerance_accepts_ties_squares.
